@@ -68,6 +68,24 @@ var c11Faults = []c11Fault{
 	{"num(1, 2)", map[string]any{}, nil},
 	{"'x'.split($.n)", map[string]any{"n": 5.0}, map[string]any{"n": "x"}},
 	{"json($.j)", nil, map[string]any{"j": 1.0}},
+	// one trigger per place the evaluator, the value model and the builtins raise an error
+	{"$.v == $.v", map[string]any{"v": []any{1.0}}, map[string]any{"v": 1.0}},
+	{"$.v != $.v", map[string]any{"v": map[string]any{}}, map[string]any{"v": "s"}},
+	{"$.v <= $.w", map[string]any{"v": []any{1.0}, "w": []any{1.0}}, map[string]any{"v": 1.0, "w": 2.0}},
+	{"$ == $", map[string]any{}, nil},
+	{"7 % $.n", map[string]any{"n": 0.0}, map[string]any{"n": 2.0}},
+	{`'a\q'`, map[string]any{}, nil},
+	{"'a' ~ $.n", map[string]any{"n": 5.0}, map[string]any{"n": "a"}},
+	{"($.v.k = 1)", map[string]any{"v": 1.0}, map[string]any{"v": map[string]any{}}},
+	{"$[$.b]", map[string]any{"b": true}, map[string]any{"b": "k"}},
+	{"[$.v].contains(1)", map[string]any{"v": []any{1.0}}, map[string]any{"v": 1.0}},
+	{"num()", map[string]any{}, nil},
+	{"[1].push()", map[string]any{}, nil},
+	{"[1].nosuch()", map[string]any{}, nil},
+	{"($.arr[$.n] = 1)", map[string]any{"n": 2000000.0}, map[string]any{"n": 3.0}},
+	{"($.arr[$.s] = 1)", map[string]any{"s": "k"}, map[string]any{"s": 0.0}},
+	{"printf('%q', 1)", map[string]any{}, nil},
+	{"printf('%s')", map[string]any{}, nil},
 }
 
 func lbl(s string) string { return strings.ReplaceAll(s, "\n", " / ") }
@@ -100,7 +118,7 @@ func VHC11DivFault() {
 	// the divisor comes from a small table (that / fails exactly for a zero divisor, for
 	// every double, is C05's); what is decided here is what the fault does to the run
 	z := vh.FloatFrom("z", []float64{0, math.Copysign(0, -1), 1, 2.5, 4})
-	prog := strings.ReplaceAll(slot, "@", "1/$.z")
+	prog := strings.ReplaceAll(slot, "@", []string{"1/$.z", "7 % $.z"}[vh.Choose("op", 2)])
 	out, k := runProg(prog, c11Doc(map[string]any{"z": z}))
 	if z == 0 {
 		vh.Reach("fault fired")
@@ -145,6 +163,9 @@ var c11Statements = []string{
 	"x = 5; ++x.y",
 	"x = 5; x.y = 1",
 	"x = 5; x.y += 1",
+	"x = 1; x /= 0",
+	"x = [1]; x += [1] < 2",
+	"x = [1]; y = x == x",
 	"for (q in 5) { print 'loop' }",
 	"for (q in null) { print 'loop' }",
 	"printf('%s', 5)",
